@@ -59,16 +59,25 @@ func TestVerifKeysMeta(t *testing.T) {
 	defer f.Close()
 	var names []string
 	var segs [][]string
+	var counts []int32
 	sc := bufio.NewScanner(f)
 	for sc.Scan() {
 		var l struct {
-			Segs []string `json:"segs"`
+			Counts []int32  `json:"counts"`
+			Segs   []string `json:"segs"`
 		}
 		if err := json.Unmarshal(sc.Bytes(), &l); err != nil {
 			t.Fatal(err)
 		}
+		if l.Counts != nil {
+			counts = l.Counts
+			continue
+		}
 		segs = append(segs, l.Segs)
 		names = append(names, strings.Join(l.Segs, "/"))
+	}
+	if len(counts) == 0 {
+		t.Fatal("first line must carry the partition counts to probe")
 	}
 	ctx := context.Background()
 	mem := NewInMemoryStore(vkSnapshot())
@@ -78,13 +87,48 @@ func TestVerifKeysMeta(t *testing.T) {
 		t.Fatal(err)
 	}
 	cli := es.client
-	spec := func(n string) TopicSpec { return TopicSpec{Name: n, NumPartitions: 2, ReplicationFactor: 1} }
+	specN := func(n string, c int32) TopicSpec { return TopicSpec{Name: n, NumPartitions: c, ReplicationFactor: 1} }
+	// Probe CreateTopic of both stores with every partition count of the alphabet (-1 = "broker default", 0, 1, 2).
+	// An accepted probe is deleted again; afterwards the topic is (re)created with the largest accepted count and kept,
+	// so that "in the store" = "some creation request creates it".
+	cntMem, cntEtcd := make([][]bool, len(names)), make([][]bool, len(names))
 	accMem, accEtcd := make([]bool, len(names)), make([]bool, len(names))
+	keepMem, keepEtcd := make([]int32, len(names)), make([]int32, len(names))
 	for i, n := range names {
-		_, e1 := mem.CreateTopic(ctx, spec(n))
-		accMem[i] = e1 == nil
-		_, e2 := es.CreateTopic(ctx, spec(n))
-		accEtcd[i] = e2 == nil
+		for _, c := range counts {
+			_, e1 := mem.CreateTopic(ctx, specN(n, c))
+			cntMem[i] = append(cntMem[i], e1 == nil)
+			if e1 == nil {
+				accMem[i] = true
+				if c >= keepMem[i] || keepMem[i] == 0 {
+					keepMem[i] = c
+				}
+				if err := mem.DeleteTopic(ctx, n); err != nil {
+					t.Fatalf("mem probe delete %q: %v", n, err)
+				}
+			}
+			_, e2 := es.CreateTopic(ctx, specN(n, c))
+			cntEtcd[i] = append(cntEtcd[i], e2 == nil)
+			if e2 == nil {
+				accEtcd[i] = true
+				if c >= keepEtcd[i] || keepEtcd[i] == 0 {
+					keepEtcd[i] = c
+				}
+				if err := es.DeleteTopic(ctx, n); err != nil {
+					t.Fatalf("etcd probe delete %q: %v", n, err)
+				}
+			}
+		}
+		if accMem[i] {
+			if _, err := mem.CreateTopic(ctx, specN(n, keepMem[i])); err != nil {
+				t.Fatalf("mem create %q: %v", n, err)
+			}
+		}
+		if accEtcd[i] {
+			if _, err := es.CreateTopic(ctx, specN(n, keepEtcd[i])); err != nil {
+				t.Fatalf("etcd create %q: %v", n, err)
+			}
+		}
 	}
 	// store offsets and consumer offsets for every accepted topic, through the real store operations
 	for i, n := range names {
@@ -166,7 +210,7 @@ func TestVerifKeysMeta(t *testing.T) {
 					mem.consumerOffsets[k] = v
 				}
 			}
-			if _, err := mem.CreateTopic(ctx, spec(n)); err != nil {
+			if _, err := mem.CreateTopic(ctx, specN(n, keepMem[i])); err != nil {
 				t.Fatalf("mem re-create %q: %v", n, err)
 			}
 		}
@@ -184,11 +228,11 @@ func TestVerifKeysMeta(t *testing.T) {
 					}
 				}
 			}
-			if _, err := es.CreateTopic(ctx, spec(n)); err != nil {
+			if _, err := es.CreateTopic(ctx, specN(n, keepEtcd[i])); err != nil {
 				t.Fatalf("etcd re-create %q: %v", n, err)
 			}
 		}
-		bs, _ := json.Marshal(map[string]any{"ev": "Meta", "i": i, "segs": segs[i], "name": n, "accMem": accMem[i], "accEtcd": accEtcd[i],
+		bs, _ := json.Marshal(map[string]any{"ev": "Meta", "i": i, "segs": segs[i], "name": n, "accMem": accMem[i], "accEtcd": accEtcd[i], "cntMem": cntMem[i], "cntEtcd": cntEtcd[i],
 			"etcd": etcdKeys, "lease": lease, "mem": memKeys, "memc": memc, "delMem": vkSorted(delMem), "delMemC": vkSorted(delMemC), "delEtcd": vkSorted(delEtcd)})
 		w.Write(bs)
 		w.WriteByte('\n')
